@@ -898,7 +898,7 @@ func (f *Frame) frameObls(cur, base *State, allowed map[string][]location, label
 		if !ok {
 			b = Term{smtName(k) + "@0", c.Sort}
 		}
-		if c.S == b.S || k == "G.alloc" {
+		if c.S == b.S || k == "G.alloc" || strings.HasPrefix(k, "L.") {
 			continue
 		}
 		whole := false
